@@ -18,6 +18,7 @@ type Meta struct {
 	Assumptions []string `json:"assumptions"`
 	Exhaustive  string   `json:"exhaustive"`
 	Components  string   `json:"components"`
+	Stages      int      `json:"stages"` // >1: later stages are planned from the results of earlier ones
 }
 
 const Components = "REAL: all of go-plugin (client, server, brokers, grpcmux, cmdrunner, stdio, mtls, log parsing) compiled from /repo's working tree with imports of os/net/os-exec/os-signal/os-user/fmt/log/runtime redirected and schedule points woven; yamux v0.1.1, grpc-go v1.58.3, net/rpc, crypto/tls, hclog, protobuf unmodified. STUB: kernel (process table, pipes, sockets, file system, environment, signals), clock (testing/synctest), crypto randomness (seeded), four patches to the Go scheduler. HARNESS: plugin implementations, scripted plugins, intruders, workload generators, oracles."
